@@ -44,6 +44,7 @@ def run(ctx):
     e_done_instances_inert(ctx)
     e_oldest_instance_not_read(ctx)
     c_decoder_registers_first(ctx)
+    c_decode_order_mirrors_encode(ctx)
     c_containers_always_registered(ctx)
 
 
@@ -605,6 +606,73 @@ def c_decoder_registers_first(ctx):
                   "the members of a %s are decoded before the object is entered into `refs`: a member that refers back to it (a child flow holding its parent's FlowState, an event of "
                   "the parent in a variable) cannot be resolved - the saved state cannot be restored" % (tags[0] if tags else "dataclass instance"), line=i.lineno)
     ctx.floor("C11.c.decoder-registers-first", SER, "decoder branches for objects that hold references", n, 4)
+
+
+def _in_eval_order(node):
+    """The nodes under `node` in the order Python evaluates them, as far as statements go that assign: the right-hand side before the targets (`a[f(k)] = f(v)` calls f(v)
+    first); everything else left to right (a dict display / comprehension evaluates the key before the value)."""
+    if isinstance(node, (ast.Assign, ast.AnnAssign, ast.AugAssign)):
+        if node.value is not None:
+            yield from _in_eval_order(node.value)
+        for tg in (node.targets if isinstance(node, ast.Assign) else [node.target]):
+            yield from _in_eval_order(tg)
+        return
+    yield node
+    for c in ast.iter_child_nodes(node):
+        yield from _in_eval_order(c)
+
+
+def c_decode_order_mirrors_encode(ctx):
+    """References are positional in time: the encoder writes the first visit of an object in full and every later visit as {"__type": "ref"}, so the decoder must visit the
+    parts of a container in the order the encoder did, else it meets the reference before the object (KeyError on restore).  For the sequences the order is the iteration
+    order on both sides; the one place with two recursive visits per element is the (key, value) pair list of a dict with non-string keys (F168: `value[decode(k)] =
+    decode(v)` evaluates the VALUE first)."""
+    t = ctx.tree.ast(SER)
+    enc, dec = find_function(t, "encode_to_dict"), find_function(t, "decode_from_dict")
+    if enc is None or dec is None:
+        raise AnalysisError("encode_to_dict / decode_from_dict not found", anchor=SER + "::decode_from_dict")
+    # encoder: the comprehension stored under "items", slots of the pair in evaluation order
+    enc_order = None
+    for dct in ast.walk(enc):
+        if isinstance(dct, ast.Dict):
+            for k, v in zip(dct.keys, dct.values):
+                if isinstance(k, ast.Constant) and k.value == "items" and isinstance(v, (ast.ListComp, ast.GeneratorExp)) and isinstance(v.elt, (ast.List, ast.Tuple)):
+                    tgt = v.generators[0].target
+                    names = [e.id for e in tgt.elts] if isinstance(tgt, ast.Tuple) and all(isinstance(e, ast.Name) for e in tgt.elts) else []
+                    enc_order = []
+                    for slot, e in enumerate(v.elt.elts):
+                        for c in _in_eval_order(e):
+                            if isinstance(c, ast.Call) and src(c.func) == "encode_to_dict" and c.args and isinstance(c.args[0], ast.Name) and c.args[0].id in names:
+                                enc_order.append((slot, names.index(c.args[0].id)))
+    loops = [l for l in ast.walk(dec) if isinstance(l, (ast.For, ast.comprehension)) and isinstance(l.iter, ast.Subscript) and isinstance(l.iter.slice, ast.Constant) and l.iter.slice.value == "items" and isinstance(l.target, ast.Tuple)]
+    if enc_order is None and not loops:
+        ctx.note("C11.c.decode-order-mirrors-encode", SER, "decode_from_dict", "no (key, value) pair encoding: nothing to compare")
+        return
+    if enc_order is None:
+        raise AnalysisError("the decoder reads a pair list but the encoder's \"items\" entry was not recognised", anchor=SER + "::encode_to_dict")
+    if not loops:
+        reads = any(isinstance(c, ast.Constant) and c.value == "items" for c in ast.walk(dec))
+        if reads:
+            raise AnalysisError("the decoder reads \"items\" in a form that was not recognised", anchor=SER + "::decode_from_dict")
+        ctx.check("C11.c.decode-order-mirrors-encode", SER, "decode_from_dict", "pairs of a dict with non-string keys", False,
+                  "the encoder writes a dict with non-string keys as a list of pairs under \"items\", the decoder never reads that entry: such a dict cannot be restored", line=dec.lineno)
+        return
+    for l in loops:
+        names = [e.id for e in l.target.elts if isinstance(e, ast.Name)]
+        if isinstance(l, ast.For):
+            body = [x for st in l.body for x in _in_eval_order(st)]
+        else:
+            comp = next(c for c in ast.walk(dec) if isinstance(c, (ast.ListComp, ast.DictComp, ast.GeneratorExp, ast.SetComp)) and l in c.generators)
+            body = [x for part in ([comp.key, comp.value] if isinstance(comp, ast.DictComp) else [comp.elt]) for x in _in_eval_order(part)]
+        dec_order = [names.index(c.args[0].id) for c in body if isinstance(c, ast.Call) and src(c.func) == "decode_from_dict" and c.args and isinstance(c.args[0], ast.Name) and c.args[0].id in names]
+        want = [slot for slot, _ in enc_order]
+        ok = dec_order == want
+        ctx.check("C11.c.decode-order-mirrors-encode", SER, "decode_from_dict", "pairs of a dict with non-string keys", ok,
+                  "the decoder visits the slots of a pair in the order the encoder wrote them %s" % want if ok else
+                  "the encoder writes the slots of a (key, value) pair in the order %s, the decoder reads them in the order %s (an assignment evaluates its right-hand side before the "
+                  "subscript of its target): a value that refers to its own key - `$seen[$ev] = $ev` for an event, an object kept in a dict under itself - is a reference to an object the "
+                  "decoder has not met yet, the saved state cannot be restored" % (want, dec_order), line=getattr(l, "lineno", l.iter.lineno))
+    ctx.floor("C11.c.decode-order-mirrors-encode", SER, "pair loops of the decoder", len(loops), 1)
 
 
 def c_containers_always_registered(ctx):
